@@ -14,14 +14,14 @@ fn main() {
     let check = Check::new(
         "C12",
         "exploration",
-        "Five proptest parts; all payload bytes are derived from tags, cases store shapes only. sequential-roundtrip: 1-3 (thorough 1-5) rounds of [Fill: whole-frame filler batches computed from the builder's current offset so that exactly `slack` bytes (0..45 mostly, up to 70 000) remain before the next 1 MiB boundary; then 1-3 probes: Fit = a batch whose frame is (room left in the block)+delta bytes for delta in -3..3 / -25..25 / -300..300, Batch = 1-5 explicitly shaped entries (keys 0..16 384 bytes, values none/0..32 768 bytes, timestamps 0, 1, 127, 128, 2^32, 2^64-1, random; values of zeros / 0xff / images of a valid frame header), Tiny = up to 59 one-entry batches, Big = payload MAX_BATCH_LEN / MAX_BATCH_SIZE / 1 MiB +-2, Empty = an empty batch (must be refused, log unchanged), Overfull = a batch filled to within 0..39 bytes of 1 MiB plus one entry that must be refused, Built = a batch put together with WriteBatch::insert, with WriteBatch::merge of two halves, or with both (same bytes as put / del), Single = one entry through LogBuilder::put / del (also every second batch of a Tiny step), MergeOver = a merge that would exceed 1 MiB must be refused with table-full and change neither bytes nor setsum, a merge to exactly 1 MiB must succeed, Flush / Fsync between appends]; written with LogBuilder<&mut Vec<u8>> or (25 %) LogBuilder<File>; in 60 % of the cases LogOptions differ from the default (write_buffer and read_buffer each from 0, 1, 2..17, 18..21, 22..4095, 4096, ..1 MiB, 1 MiB +-1, ..2 MiB, 2 MiB +-1, 4 MiB; set through the crate's command-line parser), in 12 % rollover_size is k MiB +-60 or 100..70 000: an append whose frame would end beyond it must be refused with table-full (and only then), may at most have padded the block, and must not show up when the log is read. Oracle: LogIterator yields exactly the appended entries in order and then ends cleanly; seal()'s setsum and log_to_setsum equal the sum of the entries; truncate_final_partial_frame on the intact file says None; the builder's offsets equal the ends of the frames found by the harness's own frame parser (whole / first+second frames, CRCs, zero padding of at most HEADER_MAX_SIZE bytes up to the boundary). Non-trivial = at least one batch is split across a block boundary. truncation: the same generator (1-2 rounds, small probes) and, for the built image, every cut length inside every split batch (header, first part, padding, second header, second part), inside every padding and the header that follows it, +-3 around every block boundary, inside the last two or three frames, plus sampled positions (dense regions longer than 700 bytes are thinned to their edges + 24 interior points; at most 900 / 2500 cuts per case). Oracle for a cut at c: the reader yields exactly the entries of all batches whose last byte lies before c (no complete batch lost, no partial batch, no foreign entry), then ends or returns Err, and never panics; for a file that ends after the first half of a split frame (the crash between the two writes of append_split) truncate_final_partial_frame must name the end of the last complete batch and the log truncated there must read cleanly. Non-trivial = at least one cut strictly inside a split batch. truncation also varies read_buffer / write_buffer. concurrent-append: 2-8 OS threads x 1-10 (thorough 1-20) uniquely tagged batches (8 bytes .. 1 MiB; built with put / del, insert or merge, 15 % handed over as single entries through ConcurrentLogBuilder::put / del) through one ConcurrentLogBuilder<File> on tmpfs, created by from_write, by new(path) or by from_builder on a LogBuilder that already holds 0-3 batches (flushed or still buffered; they must come first, once), with varied LogOptions, in free mode sometimes with one more thread calling ConcurrentLogBuilder::fsync (must succeed; whether everything written before the call is synced at its return is recorded as a label only); directed sizes: write pile-ups whose 2-7 waiters total exactly 1 MiB, 1 MiB +-1..3, +-13/19/38 and +-70 bytes (cut at generated points), a maximal batch (1 MiB, MAX_BATCH_SIZE, MAX_BATCH_LEN, each -0..2) waiting together with one or two tiny ones, and maximal batches in free mode; with write / fdatasync / fsync interposed in the harness binary: generated pauses before calls and generated delays (0-1500 us) inside every write and fdatasync; 40 % of the cases are forced pile-ups in which thread 0's first write (or first fdatasync) is held inside the shim until every other thread is parked in an untimed futex wait inside append (two identical /proc snapshots). Oracle: every append returns Ok; the sealed file parses into frames; reading it yields every batch exactly once, whole and contiguous, per-thread order and real-time order (returned-before-called) preserved; every frame group is the concatenation of whole batches and carries at most 1 MiB; when an append returned, the end offset of the frame holding its batch was <= the file length covered by an fdatasync that had completed (the shim records the length before each sync and publishes it after success); seal()'s setsum equals the sum; in an established write pile-up whose waiters total <= 1 MiB the waiters are written as one merged frame, and in an established fsync pile-up exactly one further fdatasync serves all waiters. Non-trivial = at least two batches merged into one write. A saved threaded case is replayed 20 times. fault-injection: the harness's write / fdatasync fail on request: the k-th write call on the log (k chosen among the calls the case will make) and the 0, 1-2 or all calls after it fail with EIO or ENOSPC, optionally after call k wrote only a proper prefix of its buffer (short write), and / or the k-th fdatasync and 0, 1-2 or all later ones fail; targets: ConcurrentLogBuilder<File> with 2-6 threads in free mode or in a forced write / fsync pile-up (so that the failing call carries the merged batch of, or serves, every waiter), and LogBuilder<File> running appends / put / del / flush / fsync (acknowledged = append Ok and a later fsync Ok). Oracle: nothing panics; no call fails unless a system call on the log failed before it returned; every acknowledged batch lies wholly inside well-formed frames of the final file and its last byte was covered by a data sync that SUCCEEDED (file length taken on entry to the sync) when the acknowledgement was given - so neither the waiters merged into a failed write nor those served by a failed sync may be told Ok; reading the file yields every acknowledged batch once, whole, in per-thread and real-time order, possibly unacknowledged ones too, never a foreign, changed or partial batch, and may stop with an error only after all acknowledged ones. Non-trivial = a fault fired and at least one call returned an error. hand-made-frames: up to 7 pieces (frames with any discriminant 0-4, right or wrong CRC, short or over-claimed payload; stray zeros; out-of-range header lengths): the reader never panics, yields only entries present in the input, and reads well-formed input completely. Non-trivial = damaged input from which at least one entry was read. Distinct by structural hash of the case.",
+        "Five proptest parts; all payload bytes are derived from tags, cases store shapes only. sequential-roundtrip: 1-3 (thorough 1-5) rounds of [Fill: whole-frame filler batches computed from the builder's current offset so that exactly `slack` bytes (0..45 mostly, up to 70 000) remain before the next 1 MiB boundary; then 1-3 probes: Fit = a batch whose frame is (room left in the block)+delta bytes for delta in -3..3 / -25..25 / -300..300, Batch = 1-5 explicitly shaped entries (keys 0..16 384 bytes, values none/0..32 768 bytes, timestamps 0, 1, 127, 128, 2^32, 2^64-1, random; values of zeros / 0xff / images of a valid frame header), Tiny = up to 59 one-entry batches, Big = payload MAX_BATCH_LEN / MAX_BATCH_SIZE / 1 MiB +-2, Empty = an empty batch (refused or a no-op: nothing a reader can see; which, is a label), Overfull = a batch filled to within 0..39 bytes of 1 MiB plus one entry that must be refused without changing bytes or setsum, Built = a batch put together with WriteBatch::insert, with WriteBatch::merge of two halves, or with both (same bytes as put / del), Single = one entry through LogBuilder::put / del (also every second batch of a Tiny step), MergeOver = a merge that would exceed 1 MiB must be refused and change neither bytes nor setsum (error code: label), a merge to exactly 1 MiB is recorded, Flush / Fsync between appends]; written with LogBuilder<&mut Vec<u8>> or (25 %) LogBuilder<File>; in 60 % of the cases LogOptions differ from the default (write_buffer and read_buffer each from 0, 1, 2..17, 18..21, 22..4095, 4096, ..1 MiB, 1 MiB +-1, ..2 MiB, 2 MiB +-1, 4 MiB; set through the crate's command-line parser), in 12 % rollover_size is k MiB +-60 or 100..70 000: an append whose frame would end beyond it must be refused (an accepted one must end within it; a refusal needs the frame plus at most 2 * HEADER_MAX_SIZE + 1 bytes to pass it; error code and offset movement are labels) and must not show up when the log is read nor in seal()'s setsum. Oracle (judged): LogIterator yields exactly the entries of the accepted batches in order and then ends cleanly; seal()'s setsum equals their sum; no frame found by the harness's own parser of the frame FORMAT holds the end of one batch and part of another; truncate_final_partial_frame on the intact file must not name an offset that cuts a complete batch. Recorded as labels only (not judged; C12 speaks of what a reader gets, not of the bytes): whether the writer's placement follows today's rule (pad iff at most HEADER_MAX_SIZE bytes are left, first part = room - HEADER_MAX_SIZE), whether there is one frame group per batch and the builder's offsets equal the frame ends and the file size, whether the parser can follow the file at all, log_to_setsum, the size of insert- / merge-built batches, the error codes of refusals, whether an empty batch is refused or taken as a no-op, whether a batch ABOVE the smallest documented maximum (sst::MAX_BATCH_LEN = 1 MiB - 64 KiB; log::MAX_BATCH_SIZE is larger) is accepted - acceptance is demanded up to that size only, a larger batch that is refused is skipped, one that is accepted must read back whole. Non-trivial = at least one batch is split across a block boundary. truncation: the same generator (1-2 rounds, small probes) and, for the built image, every cut length inside every split batch (header, first part, padding, second header, second part), inside every padding and the header that follows it, +-3 around every block boundary, inside the last two or three frames, plus sampled positions (dense regions longer than 700 bytes are thinned to their edges + 24 interior points; at most 900 / 2500 cuts per case). Oracle for a cut at c: the reader yields exactly the entries of all batches whose last byte lies before c (no complete batch lost, no partial batch, no foreign entry), then ends or returns Err, and never panics; for a file that ends after the first half of a split frame (the crash between the two writes of append_split) truncate_final_partial_frame is judged by its consequence only: the log truncated where it says must yield every complete batch and nothing torn (which offset it names, None or an error are labels). Non-trivial = at least one cut strictly inside a split batch. truncation also varies read_buffer / write_buffer. concurrent-append: 2-8 OS threads x 1-10 (thorough 1-20) uniquely tagged batches (8 bytes .. 1 MiB; built with put / del, insert or merge, 15 % handed over as single entries through ConcurrentLogBuilder::put / del) through one ConcurrentLogBuilder<File> on tmpfs, created by from_write, by new(path) or by from_builder on a LogBuilder that already holds 0-3 batches (flushed or still buffered; they must come first, once), with varied LogOptions, in free mode sometimes with one more thread calling ConcurrentLogBuilder::fsync (must succeed; whether everything written before the call is synced at its return is recorded as a label only); directed sizes: write pile-ups whose 2-7 waiters total exactly 1 MiB, 1 MiB +-1..3, +-13/19/38 and +-70 bytes (cut at generated points), a maximal batch (1 MiB, MAX_BATCH_SIZE, MAX_BATCH_LEN, each -0..2) waiting together with one or two tiny ones, and maximal batches in free mode; with write / fdatasync / fsync interposed in the harness binary: generated pauses before calls and generated delays (0-1500 us) inside every write and fdatasync; 40 % of the cases are forced pile-ups in which thread 0's first write (or first fdatasync) is held inside the shim until every other thread is parked in an untimed futex wait inside append (two identical /proc snapshots). Oracle (judged): every append of a batch up to the smallest documented maximum returns Ok; reading the sealed file yields every accepted batch exactly once, whole and contiguous, per-thread order and real-time order (returned-before-called) preserved; no frame holds the end of one batch and part of another; when an append returned, the end offset of the frame holding its batch's last byte was <= the file length covered by an fdatasync that had completed (the shim takes the length on entry to each sync and publishes it after success); seal()'s setsum equals the sum. Recorded as labels only: placement rule, whether an established write pile-up whose waiters total <= 1 MiB was written as one merged frame, whether an established fsync pile-up was served by one further fdatasync, frame groups above 1 MiB (coalescing is performance, not part of C12), refusals above the documented maximum. Non-trivial = at least two batches merged into one write. A saved threaded case is replayed 20 times. fault-injection: the harness's write / fdatasync fail on request: the k-th write call on the log (k chosen among the calls the case will make) and the 0, 1-2 or all calls after it fail with EIO or ENOSPC, optionally after call k wrote only a proper prefix of its buffer (short write), and / or the k-th fdatasync and 0, 1-2 or all later ones fail; targets: ConcurrentLogBuilder<File> with 2-6 threads in free mode or in a forced write / fsync pile-up (so that the failing call carries the merged batch of, or serves, every waiter), and LogBuilder<File> running appends / put / del / flush / fsync (acknowledged = append Ok and a later fsync Ok). Oracle: nothing panics; no call fails unless a system call on the log failed before it returned; every acknowledged batch lies wholly inside well-formed frames of the final file and its last byte was covered by a data sync that SUCCEEDED (file length taken on entry to the sync) when the acknowledgement was given - so neither the waiters merged into a failed write nor those served by a failed sync may be told Ok; reading the file yields every acknowledged batch once, whole, in per-thread and real-time order, possibly unacknowledged ones too, never a foreign, changed or partial batch, and may stop with an error only after all acknowledged ones. Non-trivial = a fault fired and at least one call returned an error. hand-made-frames: up to 7 pieces (frames with any discriminant 0-4, right or wrong CRC, short or over-claimed payload; stray zeros; out-of-range header lengths): the reader never panics, yields only entries present in the input, and reads well-formed input completely. Non-trivial = damaged input from which at least one entry was read. Distinct by structural hash of the case.",
     )
-    .assume("batches are built through WriteBatch (put / del), so the smallest batch is one tombstone with an empty key (8 bytes) and the largest is 1 MiB (WriteBatch refuses to grow beyond BLOCK_SIZE; log::MAX_BATCH_SIZE = 1 MiB - 2*HEADER_MAX_SIZE and sst::MAX_BATCH_LEN are smaller and are exercised as boundary sizes); logs stay far below the 1 GiB table limit; LogOptions has no documented ranges, every usize is taken as legal for the buffer sizes")
+    .assume("batches are built through WriteBatch (put / del / insert / merge), so the smallest batch is one tombstone with an empty key (8 bytes); 'the maximum batch' of the quantifier is read as the smallest documented maximum, sst::MAX_BATCH_LEN = 1 MiB - 64 KiB (log::MAX_BATCH_SIZE = 1 MiB - 2*HEADER_MAX_SIZE is larger): up to it every batch must be accepted; today's code accepts up to 1 MiB and those sizes are generated and must read back whole when accepted, but a refusal above the documented maximum is not a violation; logs stay far below the 1 GiB table limit; LogOptions has no documented ranges, every usize is taken as legal for the buffer sizes")
     .assume("failure path: after a failed write or sync a builder may refuse all further work or carry on; which error it returns is not prescribed. What it must not do is acknowledge a batch that is not durable and readable. A successful data sync is taken to cover every byte written before it was called, also bytes whose earlier sync failed (the stricter reading - pages dropped by a failed fsync are gone - is not applied)")
     .assume("findings C12-B (no builder stopped writing after a failed write, so a later append was framed behind torn bytes and acknowledged; repaired in /repo by 74f18ab: LogBuilder refuses all work after a failed write or flush) and C12-C (LogBuilder::append added the batch's setsum before _append could refuse the batch by rollover_size; repaired by b0958d0) are regressions/C12/C12-B-*.json and C12-C-*.json; nothing is excluded: after a failed write nothing may be acknowledged unless it is readable and durable, and seal()'s setsum equals the sum of the log's batches also after a refused append")
     .assume("a cut is acceptable when the reader returns the complete batches before it and then either ends or reports an error; which of the two is not prescribed")
     .assume("durability is judged on the intercepted libc calls: bytes are durable when an fdatasync/fsync on the log's descriptor that started after their write returned has completed with success (tmpfs itself persists nothing)")
-    .assume("the anchors' description of the concurrent builder (batches merged by the head thread, one write, then one fdatasync covering every waiter) is read as part of the property only for forced pile-ups, where every waiter is provably enqueued before the head finishes")
+    .assume("the anchors' description of the concurrent builder (batches merged by the head thread, one write, then one fdatasync covering every waiter) and the documented frame placement are mechanisms, not part of the property: forced pile-ups and the placement rule are observed (labels pileup-write:*, pileup-sync:*, layout:*) but never judged; judged is only what a reader, a cut or a crash could observe")
     .assume("a put/del refused by a WriteBatch must leave both the batch's bytes and its setsum unchanged (finding C12-A, repaired in /repo by fee951b; regressions/C12/C12-A-refused-put-pollutes-setsum.json); the batch keeps being used after the refusal")
     .pbt(seq::RoundTrip)
     .pbt(seq::Truncation)
